@@ -121,17 +121,17 @@ Lemma mp_item_old_to_new_q off q : question_parse m (12 + off) (mlen m) = Ok q -
   exists it, mp_item c 0 off = Ok (it, q_end q - 12) /\ 12 <= q_end q.
 Proof.
   intros H. destruct (question_old_to_new h c Hh Hwf off q (Hk _) H) as (n & _ & He & Q).
-  unfold mp_item. cbn [N.eqb]. rewrite Q. cbn [bind]. eexists. split; [reflexivity|lia].
+  unfold mp_item. cbn [N.eqb]. rewrite Q. cbn [bind]. eexists. split; [reflexivity|]. clear - He. lia.
 Qed.
 
 Lemma mp_item_old_to_new_r sec off r : sec <> 0 -> record_parse m (12 + off) (mlen m) = Ok r ->
   exists it, mp_item c sec off = Ok (it, rr_end r - 12) /\ 12 <= rr_end r.
 Proof.
   intros Hs H. destruct (record_old_to_new h c Hh Hwf off r (Hk _) H) as (n & _ & He & Q).
-  pose proof (record_extent_within m _ _ r ltac:(lia) H) as (E1 & E2 & E3).
+  pose proof (record_extent_within m (12 + off) (mlen m) r (N.le_refl _) H) as (E1 & E2 & E3).
   unfold mp_item. destruct (N.eqb_spec sec 0); [contradiction|]. rewrite Hno_edns, andb_false_r.
   rewrite Q. cbn [bind]. destruct (N.eqb_spec (rr_type r) 41) as [E|E]; [exfalso; eapply Hno_opt; eauto|].
-  cbn [andb]. eexists. split; [reflexivity|lia].
+  cbn [andb]. eexists. split; [reflexivity|]. clear - E1 He. lia.
 Qed.
 
 (* one section: MessageParser's loop against C01's iteration of the old item parser *)
@@ -150,20 +150,20 @@ Proof.
   destruct (N.eqb_spec sec 0) as [->|Hs].
   - pose proof (old_q_total (12 + off)) as TO.
     destruct (question_parse m (12 + off) (mlen m)) as [q| | |] eqn:Q; try contradiction; cbn [bind].
-    + destruct (mp_item_old_to_new_q _ _ Q) as (it & E & He). rewrite E. lia.
+    + destruct (mp_item_old_to_new_q _ _ Q) as (it & E & He). rewrite E. clear - He. lia.
     + destruct (mp_item c 0 off) as [[it off']| | |] eqn:E; try contradiction; [|exact I].
       pose proof (mp_item_new_to_old h c Hh Hwf _ _ _ _ E) as O. unfold mp_item in E. cbn [N.eqb] in E.
       destruct (new_question c off) as [[[[w ty] cl] e0]| | |]; cbn [bind] in E; try discriminate E. inversion E; subst.
       cbn [old_reads] in O. destruct O as (q & n & Q' & _). fold m in Q'. rewrite Q in Q'. discriminate Q'.
   - pose proof (old_r_total (12 + off)) as TO.
     destruct (record_parse m (12 + off) (mlen m)) as [r| | |] eqn:R; try contradiction; cbn [bind].
-    + destruct (mp_item_old_to_new_r sec _ _ Hs R) as (it & E & He). rewrite E. lia.
+    + destruct (mp_item_old_to_new_r sec _ _ Hs R) as (it & E & He). rewrite E. clear - He. lia.
     + destruct (mp_item c sec off) as [[it off']| | |] eqn:E; try contradiction; [|exact I].
       pose proof (mp_item_new_to_old h c Hh Hwf _ _ _ _ E) as O. unfold mp_item in E.
       destruct (N.eqb_spec sec 0); [contradiction|]. rewrite Hno_edns, andb_false_r in E.
       destruct (new_record c off) as [[[[[[w ty] cl] ttl] d] e0]| | |]; cbn [bind] in E; try discriminate E.
       destruct ((ty =? 41) && _); [discriminate E|]. inversion E; subst.
-      cbn [old_reads] in O. destruct O as (r & n & R' & _). fold m in R'. rewrite R in R'. discriminate R'.
+      cbn [old_reads] in O. destruct O as (r0 & n0 & R' & _). fold m in R'. rewrite R in R'. discriminate R'.
 Qed.
 
 (* MessageParser reads a section of n announced items completely iff the old
@@ -180,6 +180,97 @@ Proof.
     + subst e. destruct (IH sec off1 (it :: acc)) as (acc' & off' & ok & E & HP). exists acc', off', ok. split; [exact E|].
       destruct (iter_items (old_parse sec) (fun e => e) n (12 + off1)) as [[l p] ok_old]. destruct HP as (A & B & C).
       cbn [length] in *. repeat split; auto; lia.
-    + exists acc, off, false. split; [reflexivity|]. cbn. repeat split; try lia. discriminate.
+    + exists acc, off, false. split; [reflexivity|]. cbn. repeat split; try lia; try discriminate.
 Qed.
 End SECTIONS.
+
+(* ---- the same against C01's iterators themselves ---- *)
+Lemma iter_items_ends {A} (parse : N -> outcome A) (endof : A -> N) (parse2 : N -> outcome N) :
+  (forall p, parse2 p = (do a <- parse p; Ok (endof a))) ->
+  forall n pos, let '(l, p, ok) := iter_items parse endof n pos in
+                let '(l2, p2, ok2) := iter_items parse2 (fun e => e) n pos in
+                length l = length l2 /\ p = p2 /\ ok = ok2.
+Proof.
+  intros H n. induction n as [|n IH]; intros pos; cbn [iter_items]; [auto|].
+  rewrite H. destruct (parse pos) as [a| | |]; cbn [bind]; auto.
+  specialize (IH (endof a)).
+  destruct (iter_items parse endof n (endof a)) as [[l p] ok].
+  destruct (iter_items parse2 (fun e => e) n (endof a)) as [[l2 p2] ok2].
+  destruct IH as (A1 & A2 & A3). cbn [length]. auto.
+Qed.
+
+Lemma iter_items_len {A} (parse : N -> outcome A) (endof : A -> N) n : forall pos,
+  let '(l, p, ok) := iter_items parse endof n pos in ok = true -> length l = n.
+Proof.
+  induction n as [|n IH]; intros pos; cbn [iter_items]; [auto|].
+  destruct (parse pos) as [a| | |]; try discriminate.
+  specialize (IH (endof a)). destruct (iter_items parse endof n (endof a)) as [[l p] ok].
+  intros Q. cbn [length]. rewrite (IH Q). reflexivity.
+Qed.
+
+Section C01LINK.
+Variables (h c : bytes).
+Hypothesis Hh : length h = 12%nat.
+Hypothesis Hwf : wf_bytes c.
+Let m := h ++ c.
+Hypothesis Hk : forall p, kclass m p = KNone.
+Hypothesis Hno_edns : forall off, starts_with (skipn (N.to_nat off) c) edns_prefix = false.
+Hypothesis Hno_opt : forall pos r, record_parse m pos (mlen m) = Ok r -> rr_type r <> 41.
+
+(* C01's QuestionSection iteration over n announced questions at offset off, and
+   MessageParser's: complete together, same number of items, same end *)
+Theorem question_section_agrees n off :
+  let s := mkSect (12 + off) (N.of_nat n) None 0 in
+  exists tr s' acc' off' ok,
+    drain (q_next m) (sec_fuel s) s [] = Ok (tr, s') /\
+    mp_section n c 0 off [] = Ok (acc', off', ok) /\
+    (ok = true <-> has_err tr = false) /\
+    (ok = true -> s_err s' = None /\ s_pos s' = 12 + off' /\ length tr = length acc').
+Proof.
+  cbv zeta.
+  destruct (drain_count (fun pos => question_parse m pos (mlen m)) q_end ltac:(intros p0; eapply old_q_total; eassumption) n (12 + off) 0 (sec_fuel (mkSect (12 + off) (N.of_nat n) None 0)) [])
+    as (tr & s' & D & HP).
+  { unfold sec_fuel. cbn [s_cnt]. lia. }
+  destruct (section_iff h c Hh Hwf Hk Hno_edns Hno_opt n 0 off []) as (acc' & off' & ok & E & HS).
+  pose proof (iter_items_ends (fun pos => question_parse m pos (mlen m)) q_end (old_parse h c 0) ltac:(intros; reflexivity) n (12 + off)) as HI.
+  destruct (iter_items (fun pos => question_parse m pos (mlen m)) q_end n (12 + off)) as [[l p] okq] eqn:Eq1.
+  destruct (iter_items (old_parse h c 0) (fun e => e) n (12 + off)) as [[l2 p2] ok2].
+  pose proof (iter_items_len (fun pos => question_parse m pos (mlen m)) q_end n (12 + off)) as HL. rewrite Eq1 in HL.
+  destruct HI as (L1 & L2 & L3). destruct HS as (S1 & S2 & S3). destruct HP as (P1 & P2).
+  exists tr, s', acc', off', ok. split; [exact D|]. split; [exact E|]. subst.
+  destruct ok2.
+  - destruct (P1 eq_refl) as (A1 & A2 & A3 & A4). split; [tauto|]. intros _.
+    split; [exact A1|]. split; [rewrite A2; apply S3; reflexivity|].
+    cbn [length] in S2. rewrite (HL eq_refl) in L1. lia.
+  - destruct (P2 eq_refl) as (A1 & A2). split; [split; intros Q; [discriminate Q|congruence]|]. intros Q; discriminate Q.
+Qed.
+
+(* ... and C01's RecordSection iteration (answer, authority, additional) *)
+Theorem record_section_agrees sec n off : sec <> 0 ->
+  let s := mkSect (12 + off) (N.of_nat n) None sec in
+  exists tr s' acc' off' ok,
+    drain (r_next m) (sec_fuel s) s [] = Ok (tr, s') /\
+    mp_section n c sec off [] = Ok (acc', off', ok) /\
+    (ok = true <-> has_err tr = false) /\
+    (ok = true -> s_err s' = None /\ s_pos s' = 12 + off' /\ length tr = length acc').
+Proof.
+  intros Hs. cbv zeta.
+  destruct (drain_count (fun pos => record_parse m pos (mlen m)) rr_end ltac:(intros p0; eapply old_r_total; eassumption) n (12 + off) sec (sec_fuel (mkSect (12 + off) (N.of_nat n) None sec)) [])
+    as (tr & s' & D & HP).
+  { unfold sec_fuel. cbn [s_cnt]. lia. }
+  destruct (section_iff h c Hh Hwf Hk Hno_edns Hno_opt n sec off []) as (acc' & off' & ok & E & HS).
+  assert (Hold : forall p, old_parse h c sec p = (do a <- record_parse m p (mlen m); Ok (rr_end a))).
+  { intros p. unfold old_parse. destruct (N.eqb_spec sec 0); [contradiction|reflexivity]. }
+  pose proof (iter_items_ends (fun pos => record_parse m pos (mlen m)) rr_end (old_parse h c sec) Hold n (12 + off)) as HI.
+  destruct (iter_items (fun pos => record_parse m pos (mlen m)) rr_end n (12 + off)) as [[l p] okq] eqn:Eq1.
+  destruct (iter_items (old_parse h c sec) (fun e => e) n (12 + off)) as [[l2 p2] ok2].
+  pose proof (iter_items_len (fun pos => record_parse m pos (mlen m)) rr_end n (12 + off)) as HL. rewrite Eq1 in HL.
+  destruct HI as (L1 & L2 & L3). destruct HS as (S1 & S2 & S3). destruct HP as (P1 & P2).
+  exists tr, s', acc', off', ok. split; [exact D|]. split; [exact E|]. subst.
+  destruct ok2.
+  - destruct (P1 eq_refl) as (A1 & A2 & A3 & A4). split; [tauto|]. intros _.
+    split; [exact A1|]. split; [rewrite A2; apply S3; reflexivity|].
+    cbn [length] in S2. rewrite (HL eq_refl) in L1. lia.
+  - destruct (P2 eq_refl) as (A1 & A2). split; [split; intros Q; [discriminate Q|congruence]|]. intros Q; discriminate Q.
+Qed.
+End C01LINK.
